@@ -12,10 +12,13 @@ from common import B, L, Nat, O, P, S, Zn
 
 MODEL_FILES = ["Model/Cid.v"]
 HEADER = """From CP Require Import Model.Base Model.Ranges Model.Lex Model.RangeParse Model.DataFormat Model.Fields Model.FieldTypes Model.Cid.
-Inductive tcase := KeywordCase | CidCase (e : env) (rows : list (list text)).
+Inductive tcase := KeywordCase | CidCase (e : env) (rows : list (list text)) | ApiCase (e : env) (rows : list (list text))
+| LookupCase (e : env) (rows : list (list text)) (names : list text) (row : list text).
 Inductive tobs :=
 | OKeywords (l : list text)
 | OAccepted (fmt : text) (attrs : list (text * aval)) (fields : list fsum) (checks : list csum)
+| OApi (refused : nat) (fmt : option (text * list (text * aval))) (fields : list fsum) (checks : list csum)
+| OLookup (indexes : list (option nat)) (values : list (option text))
 | ORejected (row : option nat) | OLeak.
 Definition oz_eqb := option_eqb Z.eqb.
 Definition item_eqb (a b : item) : bool := oz_eqb (fst a) (fst b) && oz_eqb (snd a) (snd b).
@@ -46,6 +49,18 @@ Definition run (c : tcase) : option tobs :=
       | CidLeak => Some OLeak
       | CidOut => None
       end
+  | LookupCase e rows names row =>
+      match cid_read e rows with
+      | CidOk s => Some (OLookup (map (field_index s) names) (map (fun n => field_value_for s n row) names))
+      | CidInterface r => Some (ORejected r)
+      | CidLeak => Some OLeak
+      | CidOut => None
+      end
+  | ApiCase e rows =>
+      match api_steps e rows cstate0 0 with
+      | Some (s, n) => Some (OApi n (match st_fmt s with Some d => Some (df_format d, df_attrs d) | None => None end) (st_fields s) (st_checks s))
+      | None => None
+      end
   end.
 (* the attribute list of the implementation may be in another order: compare by lookup *)
 Definition is_valid_name : text := [105;115;95;118;97;108;105;100]%N.   (* bookkeeping flag of validate(), not a property *)
@@ -60,6 +75,13 @@ Definition tobs_eqb (m : option tobs) (e : tobs) : bool :=
   | Some (OAccepted f a fs cs) => match e with
                                   | OAccepted f' a' fs' cs' => text_eqb f f' && attrs_eqb a a' && list_eqb fsum_eqb fs fs' && list_eqb csum_eqb cs cs'
                                   | _ => false end
+  | Some (OApi n f fs cs) => match e with
+                           | OApi n' f' fs' cs' => Nat.eqb n n' && list_eqb fsum_eqb fs fs' && list_eqb csum_eqb cs cs'
+                                                   && match f, f' with
+                                                      | Some (x, a), Some (x', a') => text_eqb x x' && attrs_eqb a a'
+                                                      | None, None => true | _, _ => false end
+                           | _ => false end
+  | Some (OLookup a b) => match e with OLookup a' b' => list_eqb (option_eqb Nat.eqb) a a' && list_eqb (option_eqb text_eqb) b b' | _ => false end
   | Some (ORejected r) => match e with
                           | ORejected r' => match r, r' with Some x, Some y => Nat.eqb x y | _, _ => true end   (* a row is compared when both name one *)
                           | _ => false end
@@ -146,7 +168,65 @@ def observe(rows):
         return {"leak": type(e).__name__, "msg": str(e)[:160]}
 
 
-def coq_summary(s):
+def observe_lookup(rows, names, row):
+    """Cid.field_index / field_value_for / field_format_for on the finished CID; an undeclared name is refused (None)"""
+    try:
+        cid = interface.Cid()
+        cid.read("c09.csv", [list(r) for r in rows])
+    except errors.InterfaceError as e:
+        m = ROW_RE.search(str(e))
+        return {"rejected": int(m.group(1)) - 1 if m else None, "msg": str(e)[:160]}
+    try:
+        idx, vals, same = [], [], True
+        for n in names:
+            try:
+                i = cid.field_index(n)
+            except AssertionError:
+                i = None
+            idx.append(i)
+            try:
+                vals.append(cid.field_value_for(n, list(row)))
+            except AssertionError:
+                vals.append(None)
+            if i is not None:
+                same = same and cid.field_format_for(n) is cid.field_formats[i] and cid.field_names[i] == n
+        for d in cid.check_names:
+            same = same and cid.check_for(d) is cid.check_map[d] and cid.check_for(d).description == d
+        return {"lookup": [idx, vals], "same_objects": same}
+    except Exception as e:  # noqa
+        return {"leak": type(e).__name__, "msg": "lookups on a finished CID: " + str(e)[:140]}
+
+
+def observe_api(rows):
+    """the CID built call by call as Cid.read would make the calls; a refused call is counted and skipped"""
+    try:
+        cid = interface.Cid()
+        refused = 0
+        for row in rows:
+            if not row:
+                continue
+            kind = row[0].lower().strip()
+            data = (list(row[1:]) + [""] * 6)[:6]
+            try:
+                if kind == "d":
+                    cid.add_data_format_row(data)
+                elif kind == "f":
+                    cid.add_field_format_row(data)
+                elif kind == "c":
+                    cid.add_check_row(data)
+                elif kind != "":
+                    refused += 1
+            except errors.InterfaceError:
+                refused += 1
+        if cid.data_format is None:
+            return {"api": {"format": None, "attrs": [], "fields": [], "checks": []}, "refused": refused,
+                    "stray": [len(cid.field_names), len(cid.check_names)]}
+        return {"api": summary(cid), "refused": refused}
+    except Exception as e:  # noqa
+        return {"leak": type(e).__name__, "msg": "CID built call by call: " + str(e)[:140]}
+
+
+def coq_summary(s, api=None):
     def rng(items):
         if items is None:
             return "None"
@@ -154,6 +234,9 @@ def coq_summary(s):
     fs = L(s["fields"], lambda f: "(F %s %s %s %s %s %s)" % (S(f["name"]), S(f["type"]), B(f["empty"]), rng(f["length"]), S(f["rule"]), S(f["example"])))
     cs = L(s["checks"], lambda c: "(K %s %s %s %s)" % (S(c["desc"]), S(c["type"]), S(c["rule"]), L(c["fields"], S)))
     attrs = L(s["attrs"], lambda kv: P(S(kv[0]), c11.coq_attr(kv[0], kv[1])))
+    if api is not None:
+        fmt = "None" if s["format"] is None else "(Some %s)" % P(S(s["format"]), attrs)
+        return "(OApi %s %s %s %s)" % (Nat(api), fmt, fs, cs)
     return "(OAccepted %s %s %s %s)" % (S(s["format"]), attrs, fs, cs)
 
 
@@ -166,6 +249,25 @@ def make_case(inp):
         # field format and check classes that come into being only now, after many CIDs have been read in this process
         import vcommon as _V
         _V.late_classes(inp["late"])
+    if inp["kind"] == "lookup":
+        obs = observe_lookup(rows, inp["names"], inp["row"])
+        if "lookup" in obs:
+            coq_obs = "(OLookup %s %s)" % (L(obs["lookup"][0], lambda x: O(x, Nat)), L(obs["lookup"][1], lambda x: O(x, S)))
+        elif "rejected" in obs:
+            coq_obs = "(ORejected %s)" % O(obs["rejected"], Nat)
+        else:
+            coq_obs = "OLeak"
+        return {"coq": P("(LookupCase %s %s %s %s)" % (coq_env(), L(rows, lambda r: L(r, S)), L(inp["names"], S), L(inp["row"], S)), coq_obs),
+                "obs": obs, "nontrivial": True, "tags": ["lookup", "row-len-ok" if inp.get("fits") else "row-len-wrong"]}
+    if inp["kind"] == "api":
+        obs = observe_api(rows)
+        if "api" in obs:
+            fr = any(x == "frac" for f in obs["api"]["fields"] for it in (f["length"] or []) for x in it)
+            coq_obs = "OLeak" if fr else coq_summary(obs["api"], api=obs["refused"])
+        else:
+            coq_obs = "OLeak"
+        return {"coq": P("(ApiCase %s %s)" % (coq_env(inp.get("late")), L(rows, lambda r: L(r, S))), coq_obs), "obs": obs,
+                "nontrivial": True, "tags": ["api", "refused:%d" % min(obs.get("refused", -1), 3)] + (["api-of:" + inp["of"]] if inp.get("of") else [])}
     obs = observe(rows)
     frac = "accepted" in obs and any(x == "frac" for f in obs["accepted"]["fields"] for it in (f["length"] or []) for x in it)
     if "accepted" in obs:
@@ -190,6 +292,34 @@ def direct_oracle(inp, obs):
         if inp.get("hostile"):
             return None
         return "Cid.read raised %s (%s)" % (obs["leak"], obs["msg"])
+    if inp["kind"] == "lookup":
+        if "lookup" not in obs:
+            return "a structurally sound CID was rejected: %s" % obs.get("msg")
+        if not obs["same_objects"]:
+            return "field_format_for / check_for do not return the declared objects"
+        declared = inp["declared"]
+        for n, i, v in zip(inp["names"], obs["lookup"][0], obs["lookup"][1]):
+            want = declared.index(n) if n in declared else None
+            if i != want:
+                return "field_index(%r) is %r, declaration order says %r" % (n, i, want)
+            if inp.get("fits") and v != (inp["row"][want] if want is not None else None):
+                return "field_value_for(%r) is %r" % (n, v)
+            if not inp.get("fits") and v is not None:
+                return "field_value_for(%r) answered %r for a row of the wrong length" % (n, v)
+        return None
+    if inp["kind"] == "api":
+        if obs.get("stray", [0, 0]) != [0, 0]:
+            return "fields or checks were added to a CID without data format: %r" % (obs["stray"],)
+        if inp.get("of") == "base":
+            read = observe(inp["rows"])
+            if "accepted" in read and (obs["refused"] != 0 or obs["api"] != read["accepted"]):
+                return "the same rows call by call give another interface than Cid.read: %r vs %r" % (obs, read["accepted"])
+        if inp.get("of") == "defect" and inp.get("inserted"):
+            # one refused row added to a sound CID: skipping it gives the sound CID
+            read = observe(inp["base_rows"])
+            if "accepted" in read and (obs["refused"] != 1 or obs["api"] != read["accepted"]):
+                return "a refused call left a trace: %r vs %r" % (obs, read["accepted"])
+        return None
     if inp["kind"] == "base":
         return None if "accepted" in obs else "a structurally sound CID was rejected: %s" % obs.get("msg")
     if inp["kind"] == "rewrite":
@@ -427,8 +557,26 @@ def gen_inputs(tier, rnd):
             yield {"kind": "base", "rows": rows[:last_f + 1] + [["F", "padded_example", " ab ", "", "4", "Text"]] + rows[last_f + 1:]}
         for name, rw in rewrites(rnd, rows):
             yield {"kind": "rewrite", "rewrite": name, "rows": rw, "base_rows": rows}
-        for k, (name, bad, at) in enumerate(defects(rnd, rows)):
+        yield {"kind": "api", "of": "base", "rows": rows}
+        probe = names + [names[0].upper(), names[-1] + "_", "", " " + names[0]]
+        rnd.shuffle(probe)
+        cells = ["v%d" % i for i in range(len(names))]
+        yield {"kind": "lookup", "rows": rows, "names": probe, "row": cells, "declared": names, "fits": True}
+        yield {"kind": "lookup", "rows": rows, "names": probe, "row": cells + ["extra"], "declared": names, "fits": False}
+        yield {"kind": "api", "of": "late", "rows": late_rows, "late": late}
+        all_defects = list(defects(rnd, rows))
+        for k, (name, bad, at) in enumerate(all_defects):
             yield {"kind": "defect", "defect": name, "rows": bad, "at": at}
+            if k % 2 == 0:
+                # the same rows handed over call by call, refused calls skipped
+                inserted = at is not None and len(bad) == len(rows) + 1 and bad[:at] + bad[at + 1:] == rows
+                yield {"kind": "api", "of": "defect", "defect": name, "rows": bad, "inserted": inserted, "base_rows": rows}
+            if k % 7 == 0 and at is not None:
+                # two defects: the refused row of another defect as well
+                name2, bad2, at2 = all_defects[rnd.randrange(len(all_defects))]
+                if at2 is not None and at2 < len(bad2):
+                    pos = rnd.randrange(len(bad) + 1)
+                    yield {"kind": "api", "of": "two-defects", "defect": name + "+" + name2, "rows": bad[:pos] + [bad2[at2]] + bad[pos:]}
             if k % 4 == 0 and at is not None and at >= 1:
                 # the same defect behind a row without cells / a comment row: the row named moves along
                 filler = rnd.choice([[], [""], ["", "comment"]])
